@@ -527,14 +527,17 @@ def ob_arrivals_considered(ctx, num, key: str, label: str):
         for top in inner:
             if not isinstance(top, ast.If) or (isinstance(parent(top), ast.If) and top in parent(top).orelse and len(parent(top).orelse) == 1):
                 continue
-            seen_m, cur, last = set(), top, None
+            seen_m, cur, last, subj = set(), top, None, None
             while isinstance(cur, ast.If):
                 t = cur.test
                 m_ = None
                 if isinstance(t, ast.Compare) and len(t.ops) == 1 and isinstance(t.ops[0], (ast.Eq, ast.Is)):
                     for x, y in ((t.left, t.comparators[0]), (t.comparators[0], t.left)):
-                        if norm.U(x) == f"{pv}.priority" and isinstance(y, ast.Attribute) and norm.is_name(y.value, "Priority"):
-                            m_ = y.attr
+                        # one subject throughout the chain: the pipeline's priority, or the priority of the job just built for it (`job.priority`,
+                        # a local bound to it) — whatever it is called, it is compared with every member of Priority in turn
+                        if isinstance(y, ast.Attribute) and norm.is_name(y.value, "Priority") and not (isinstance(x, ast.Attribute) and norm.is_name(x.value, "Priority")) \
+                                and (subj is None or norm.U(x) == subj):
+                            m_, subj = y.attr, norm.U(x)
                 if m_ is None:
                     break
                 seen_m.add(m_)
